@@ -759,7 +759,7 @@ Qed.
 (* the union over two measures can return two features that are too associated *)
 Definition union_witness : tin :=
   mkTin 10 (999, 1000) (999, 1000) 1%nat
-    [mkM true false 100 100; mkM true false 100 100]
+    [mkM true false false 100 100; mkM true false false 100 100]
     [mkFeat 0 0 1 [mkRaw false false false 5; mkRaw false false false 1] [Some 5; Some 1];
      mkFeat 1 0 1 [mkRaw false false false 1; mkRaw false false false 5] [Some 1; Some 5]]
     [mkFilter 5 [[(0, false); (9, false)]; [(9, false); (0, false)]]].
@@ -812,8 +812,8 @@ Theorem type_ok_sound tc :
   type_ok tc = true ->
   let t := tc_in tc in let out := tc_out tc in
   NoDup out /\ incl out (map f_id (t_feats t)) /\
-  (t_ms t <> [] ->
-     (List.length out <= t_nbest t * List.length (t_ms t))%nat /\
+  (last_assoc (t_ms t) <> None ->
+     (List.length out <= t_nbest t * List.length (assoc_idx (t_ms t)))%nat /\
      forall f, In f (t_filters t) ->
        ForallOrdPairs (fun a b => fst (assoc_at f a b) <= fl_thresh f) out).
 Proof.
@@ -822,7 +822,7 @@ Proof.
   apply andb_true_iff in H. destruct H as [H H3]. apply andb_true_iff in H. destruct H as [H1 H2].
   split; [apply nodupn_NoDup, H1|]. split.
   - intros i Hi. rewrite forallb_forall in H2. apply memn_In, H2, Hi.
-  - intros Hms. destruct (t_ms t) as [|m ms] eqn:E; [contradiction|].
+  - intros Hms. destruct (last_assoc (t_ms t)) as [jl|] eqn:E; [|contradiction].
     apply andb_true_iff in H3. destruct H3 as [H3 _].
     apply andb_true_iff in H3. destruct H3 as [H3 Hind].
     apply andb_true_iff in H3. destruct H3 as [_ Hlen].
@@ -969,7 +969,7 @@ Qed.
 
 (* RegressionSelector's default (distance_measure = 1 - r, `if d_corr:`): model-level witnesses *)
 Definition copy_witness : tin :=   (* one feature, exact copy of the target: r = 1, key = 1 - r^2 = 0 *)
-  mkTin 10 (999, 1000) (999, 1000) 1%nat [mkM true true 0 0]
+  mkTin 10 (999, 1000) (999, 1000) 1%nat [mkM true true false 0 0]
         [mkFeat 0 0 1 [mkRaw false false true 0] [Some 1]] [mkFilter 1 [[(0, false)]]].
 
 Theorem regression_copy_dropped :
@@ -979,7 +979,7 @@ Proof. exists copy_witness. repeat split; vm_compute; reflexivity. Qed.
 (* key = 100 - sign(r) * 100 r^2: feature 0 has r = 0.9, feature 1 has r = -0.5; negating
    feature 0 (r = -0.9) changes the order although the strengths r^2 are unchanged *)
 Definition neg_witness (k0 : Z) : tin :=
-  mkTin 10 (999, 1000) (999, 1000) 2%nat [mkM true true 0 0]
+  mkTin 10 (999, 1000) (999, 1000) 2%nat [mkM true true false 0 0]
         [mkFeat 0 0 1 [mkRaw false false false k0] [Some 81];
          mkFeat 1 0 1 [mkRaw false false false 125] [Some 25]]
         [mkFilter 100 [[(0, false); (1, false)]; [(1, false); (0, false)]]].
